@@ -6,9 +6,9 @@
     names.  The [spec_*] functions (Spec/TableSpec.v) are list comprehensions
     over the list of rows. *)
 From Coq Require Import Permutation Sorting.Sorted QArith.
-From CG3 Require Import Lib.PyZ Lib.Chars Lib.StableSort Lib.Val Model.Csv Model.Table Model.TableLoad Model.TableRun Model.TableIndex
+From CG3 Require Import Lib.PyZ Lib.Chars Lib.StableSort Lib.Val Model.Csv Model.Table Model.TableLoad Model.TableRun Model.TableIndex Model.TableCount
      Spec.TableSpec Proofs.TableBase Proofs.CsvProofs Proofs.TableProofs Proofs.TableSortProofs
-     Proofs.TableOpsProofs Proofs.TableLoadProofs Proofs.TableIndexProofs.
+     Proofs.TableOpsProofs Proofs.TableLoadProofs Proofs.TableIndexProofs Proofs.TableCountProofs.
 From CG3 Require Model.View Model.Serial Proofs.TableSerialProofs.
 Import CG3.Proofs.TableSerialProofs.
 Import ListNotations.
@@ -425,3 +425,72 @@ Theorem table_json_pickle_roundtrip : forall t index attrs,
     of_serial t' = Some (hdr t, cols t, index) /\
     Serial.t_attrs t' = attrs.
 Proof. exact table_json_roundtrip. Qed.
+
+(** ---------------------------------------------------------------- count_unique and the argument forms
+
+    [count_unique(columns)] / [distinct_values(columns)] take a bare name, an int
+    position, a list / tuple of names, or (count_unique) nothing = all columns
+    ([carg], Model/TableCount.v).  The first component of the result says
+    whether the keys are scalars: exactly when ONE column is selected, however
+    it was spelled. *)
+
+(** the counter is a plain count over the data, keys compared with Python equality *)
+Theorem counter_is_plain_count : forall data,
+  (forall k n, In (k, n) (counter data) -> In k data /\ n = occ k data /\ 0 < n) /\
+  (forall d, In d data -> exists k n, In (k, n) (counter data) /\ key_eqb d k = true) /\
+  ForallOrdPairs (fun a b => key_eqb (fst a) (fst b) = false) (counter data).
+Proof. exact counter_spec. Qed.
+
+(** count_unique = that counter over the projected rows; scalar keys iff one column *)
+Theorem table_count_unique : forall t a names,
+  wf t -> resolve_carg t a true = Ok names -> incl names (hdr t) -> NoDup names ->
+  exists cnt, count_unique t a = Ok (Nat.eqb (length names) 1, cnt) /\
+              cnt = counter (map (proj (hdr t) names) (rows t)).
+Proof. exact count_unique_spec. Qed.
+
+(** "a", ["a"] / ("a",) and the position of "a" are the same request; no argument
+    on a one-column table is that column *)
+Theorem count_unique_argument_forms : forall t (s : str) i,
+  0 <= i < zlen (hdr t) -> nth (Z.to_nat i) (hdr t) [] = s ->
+  count_unique t (CName s) = count_unique t (CList [s]) /\
+  count_unique t (CInt i) = count_unique t (CName s).
+Proof. exact count_unique_forms_agree. Qed.
+
+Theorem distinct_values_argument_forms : forall t (s : str) i,
+  0 <= i < zlen (hdr t) -> nth (Z.to_nat i) (hdr t) [] = s ->
+  distinct_values_arg t (CName s) = distinct_values_arg t (CList [s]) /\
+  distinct_values_arg t (CInt i) = distinct_values_arg t (CName s).
+Proof. exact distinct_values_forms_agree. Qed.
+
+Theorem count_unique_no_argument_one_column : forall t (s : str),
+  hdr t = [s] -> count_unique t CNone = count_unique t (CName s).
+Proof. exact count_unique_none_one_column. Qed.
+
+(** count_unique and distinct_values agree: same scalar / tuple form, the same keys in the same order *)
+Theorem count_unique_keys_are_distinct_values : forall t a names,
+  wf t -> resolve_carg t a false = Ok names -> incl names (hdr t) -> NoDup names ->
+  exists cnt ks,
+    count_unique t a = Ok (Nat.eqb (length names) 1, cnt) /\
+    distinct_values_arg t a = Ok (Nat.eqb (length names) 1, ks) /\
+    map fst cnt = ks.
+Proof. exact count_unique_keys_distinct. Qed.
+
+(** ---------------------------------------------------------------- inner_join(other) on the index columns
+
+    The default [use_index=True] path of [Table.inner_join]: both tables carry an
+    index_name (any two names; [other] may also hold a data column named like
+    self's index): rows pair on self[index] == other[other's index] exactly like
+    the nested-loop join; other's remaining columns are prefixed; self's index is kept. *)
+Theorem inner_join_default_pairs_the_indexes : forall self other (si oi : str) prefix,
+  wf self -> wf other -> In si (hdr self) -> In oi (hdr other) -> hdr self <> [] ->
+  NoDup (spec_join_header (hdr self) (hdr other) [oi] prefix) ->
+  exists b,
+    inner_join self other (Some [si]) (Some [oi]) prefix = Ok b /\ wf b /\
+    hdr b = spec_join_header (hdr self) (hdr other) [oi] prefix /\
+    rows b = spec_inner_join (hdr self) (rows self) (hdr other) (rows other) [si] [oi] /\
+    it_inner_join_index (mkIT self (Some si)) (mkIT other (Some oi)) prefix = activate b (Some si).
+Proof. exact inner_join_on_indexes. Qed.
+
+Theorem inner_join_default_needs_both_indexes : forall self other prefix,
+  iname self = None \/ iname other = None -> it_inner_join_index self other prefix = Er E_Value.
+Proof. exact inner_join_needs_both_indexes. Qed.
